@@ -37,3 +37,4 @@ import Tranp.Lemmas.AstPath.Relativefy
 import Tranp.Lemmas.AstPath.Depth
 import Tranp.Lemmas.AstPath.Find
 import Tranp.Lemmas.AstPath.Dsn
+import Tranp.Lemmas.AstPath.Load
